@@ -34,19 +34,20 @@ type Plan struct {
 	Junk     string `json:"junk,omitempty"`      // ignored by the handler; inflates the request (longer decode window)
 
 	// subscriptions
-	N            int  `json:"n,omitempty"`              // values to send
-	Early        int  `json:"early,omitempty"`          // values placed in the channel buffer before the handler returns
-	Pace         bool `json:"pace,omitempty"`           // each further send waits for a harness tick
-	Linger       bool `json:"linger,omitempty"`         // after N values keep the channel open until ctx is done
-	IgnoreCtx    bool `json:"ignore_ctx,omitempty"`     // the stream handler never looks at its context (keeps sending / lingering)
-	ElemPad      int  `json:"elem_pad,omitempty"`       // pad each stream element
-	RevRetry     bool `json:"rev_retry,omitempty"`      // reverse calls go through retry-tagged fields of the reverse client
-	RevBig       int  `json:"rev_big,omitempty"`        // one reverse call whose argument, and therefore the client's response, has this many bytes
-	RevStream    int  `json:"rev_stream,omitempty"`     // the handler subscribes to a stream of this many elements served by the calling client
-	RevStreamPad int  `json:"rev_stream_pad,omitempty"` // padding of every (odd) element of that stream
-	Bare         bool `json:"bare,omitempty"`           // subscribe through the method whose only result is the channel (no error result)
-	ChanCap      int  `json:"chan_cap,omitempty"`       // capacity of the channel the handler returns (at least Early)
-	Flood        bool `json:"flood,omitempty"`          // the producer never pauses: it keeps the returned channel's buffer full until the context ends (N is ignored)
+	N            int     `json:"n,omitempty"`              // values to send
+	Early        int     `json:"early,omitempty"`          // values placed in the channel buffer before the handler returns
+	Pace         bool    `json:"pace,omitempty"`           // each further send waits for a harness tick
+	Linger       bool    `json:"linger,omitempty"`         // after N values keep the channel open until ctx is done
+	IgnoreCtx    bool    `json:"ignore_ctx,omitempty"`     // the stream handler never looks at its context (keeps sending / lingering)
+	ElemPad      int     `json:"elem_pad,omitempty"`       // pad each stream element
+	Bad          float64 `json:"bad,omitempty"`            // NaN / Inf here makes the arguments unmarshalable: the call fails in the client before anything is sent
+	RevRetry     bool    `json:"rev_retry,omitempty"`      // reverse calls go through retry-tagged fields of the reverse client
+	RevBig       int     `json:"rev_big,omitempty"`        // one reverse call whose argument, and therefore the client's response, has this many bytes
+	RevStream    int     `json:"rev_stream,omitempty"`     // the handler subscribes to a stream of this many elements served by the calling client
+	RevStreamPad int     `json:"rev_stream_pad,omitempty"` // padding of every (odd) element of that stream
+	Bare         bool    `json:"bare,omitempty"`           // subscribe through the method whose only result is the channel (no error result)
+	ChanCap      int     `json:"chan_cap,omitempty"`       // capacity of the channel the handler returns (at least Early)
+	Flood        bool    `json:"flood,omitempty"`          // the producer never pauses: it keeps the returned channel's buffer full until the context ends (N is ignored)
 }
 
 type Result struct {
